@@ -143,7 +143,20 @@ def execute(cfg, V):
         cls = {key: find(n) for key, n in tix.items()}
         # labels the oracle expects: at most one explicit label per class in these configurations
         obs = []
-        drawing = FakeDrawing(els)
+        if cfg.get('history'):
+            # the same drawing object was translated when only its first symbols had been placed; it is then drawn further
+            k0 = cfg['history']
+            drawing = FakeDrawing(list(els[:k0]))
+            try:
+                p0 = r['dp'].SchematicDiagramParser(drawing)
+                for e0 in els[:k0]:
+                    for anchor in ('start', 'end'): p0._get_node_index(elm.round_node(e0.absanchors[anchor]))
+                r['dt'].circuit_translator(drawing)
+            except Exception:
+                pass          # an incomplete drawing may be rejected; only its influence on the finished drawing matters here
+            drawing.elements.extend(els[k0:])
+        else:
+            drawing = FakeDrawing(els)
         parser = r['dp'].SchematicDiagramParser(drawing)
         idx = {key: parser._get_node_index(elm.round_node(P((terms[n][2], 0)))) for key, n in tix.items()}
         keys = list(tix)
@@ -264,6 +277,11 @@ def configs(tier, seed):
         if len(orders) > 6: orders = rng.sample(orders, 6 if tier == 'quick' else 24)
         for o in orders:
             cfgs.append({'items': [bl[i] for i in o]})
+    # (4) drawings translated once while incomplete, then drawn further and translated again
+    for bl in (base_lists[:4] if tier == 'thorough' else [base_lists[0], base_lists[3]]) + [[('V', 'V1', {}), ('R', 'R1', {}), ('W', 'w1', {}), ('W', 'w2', {})]]:
+        for k0 in range(1, len(bl)):
+            cfgs.append({'items': bl, 'history': k0})
+            if tier == 'thorough': cfgs.append({'items': bl[::-1], 'history': k0})
     cfgs.append({'items': base_lists[0], 'twin': True})
     return cfgs, None
 
@@ -279,6 +297,6 @@ def main(tier):
     return rep.finish(
         explanation='bounded symbolic verification: real symbol objects (every two-terminal kind of the component translator table except the two compound sources, wires, node labels, ground; every reversal / sine / degree flag combination) are given SYMBOLIC terminal coordinates; the real parser and translator are executed and every coincidence pattern of the terminals is explored by forking on coordinate equality; on each path the node index of every terminal pair agrees with an independent union-find over "coincide or joined by a wire", labels and the ground symbol name the node they sit on, and the translated component list equals the intended netlist (identifier, kind, terminal order with source polarity start->end unless reversed, every value as a polynomial identity, degree->radian and sine->cosine conversion of phases)',
         assumptions=['schemdraw placement (at / right / up, rotation, unit scaling) is not encoded: anchors are free symbolic coordinates, so invariance under rotation / translation / rescaling / wire splitting holds exactly as far as those operations preserve which terminals coincide', 'round_node (2 decimals) is the identity on the symbolic coordinates',
-                     'label text formatting is stubbed (C18 / C14)', 'at most one explicit label per electrical node', 'two-terminal symbols have distinct terminals', 'compound RealVoltageSource / RealCurrentSource symbols are not covered'],
+                     'label text formatting is stubbed (C18 / C14)', 'at most one explicit label per electrical node', 'two-terminal symbols have distinct terminals', 'compound RealVoltageSource / RealCurrentSource symbols are not covered', 'history variants: the same drawing object is translated after its first k symbols and again when complete (every k)'],
         bounds={'element lists': 'up to ' + ('4' if tier == 'quick' else '5') + ' items (up to ' + ('3' if tier == 'quick' else '4') + ' wires); insertion orders: all for <= 3 items, seeded sample above', 'symbol kinds': list(TWO_TERMINAL) + ['Gnd', 'Node']},
         trusted=['z3 (QF_LRA through symx)', 'symx executor'])
